@@ -20,7 +20,7 @@ R13.3 substitution in MethodScope.AddVar: with a replacement the variable's type
 R13.4 the setting is effective at every level: ReplaceType is inheritable in mergeConfigs (the C08 R08.1 field rule applied to this field).`
 	c.NotDecided = "that the substituted signature compiles; aliases of aliases; which packages go list resolves."
 	c.Assumptions = []string{"go/types Named/Alias API"}
-	c.Rule("R13.1", 6, "")
+	c.Rule("R13.1", 7, "")
 	c.Rule("R13.2", 1, "")
 	c.Rule("R13.3", 5, "")
 	c.Rule("R13.4", 1, "")
@@ -352,6 +352,7 @@ func ruleReplacementKey(c *Ctx, r *Repo, ip *packages.Package, md *ast.FuncDecl)
 		nLookup := 0
 		okOrigin, whyOrigin := true, ""
 		okAdd, okOrder := true, true
+		whyAdd := "the replacement found for a parameter is not handed to AddVar together with that same parameter"
 		for _, p := range d.paths {
 			adds := p.CallsTo("template.MethodScope).AddVar")
 			grs := p.CallsTo("config.Config).GetReplacement")
@@ -364,6 +365,11 @@ func ruleReplacementKey(c *Ctx, r *Repo, ip *packages.Package, md *ast.FuncDecl)
 			}
 			nLookup++
 			gr := grs[0]
+			if gr.Recv != "ARG2" {
+				// the lookup must be asked of the config methodData was given for this interface
+				okAdd = false
+				whyAdd = "the replacement is looked up in " + stripRes(gr.Recv) + ", not in the interface's own config (methodData's config parameter): replace-type set for one interface or config entry is ignored or leaks"
+			}
 			// the parameter: element I of the signature's tuple
 			elem := "ARG1.Type().(*types.Signature)." + map[string]string{"params": "Params", "results": "Results"}[which] + "().At(I)"
 			T := elem + ".Type()"
@@ -423,10 +429,32 @@ func ruleReplacementKey(c *Ctx, r *Repo, ip *packages.Package, md *ast.FuncDecl)
 		}
 		c.Check(nLookup > 0, "R13.1", "methodData|"+which+"|no-lookup", r.Pos(st.Pos()), "a replacement is looked up for every element", "the "+which+" loop does not look up a replacement")
 		c.Check(okOrigin, "R13.1", "methodData|"+which+"|key-origin", r.Pos(st.Pos()), "key = (Obj().Pkg().Path(), Obj().Name()) of the element's own type for exactly Named and Alias types, empty otherwise", "in the "+which+" loop the lookup key is wrong: "+whyOrigin)
-		c.Check(okAdd, "R13.1", "methodData|"+which+"|addvar", r.Pos(st.Pos()), "AddVar(element, replacement-of-that-element)", "the replacement found for a parameter is not handed to AddVar together with that same parameter")
+		c.Check(okAdd, "R13.1", "methodData|"+which+"|addvar", r.Pos(st.Pos()), "AddVar(element, replacement-of-that-element looked up in the interface's config)", whyAdd)
 		return false
 	})
 	if nLoops != 2 {
 		c.Fail("R13.1", "methodData|loops", r.Pos(md.Pos()), fmt.Sprintf("%d signature loops found, want 2", nLoops))
+	}
+	// every caller hands methodData the config of the interface it is rendering
+	nCalls := 0
+	for _, fd := range pkgFuncDecls(ip) {
+		fc := newFuncCanon(info, fd)
+		ast.Inspect(fd.Body, func(n ast.Node) bool {
+			call, ok := n.(*ast.CallExpr)
+			if !ok || len(call.Args) != 3 || funcs[calleeFunc(info, call)] != md {
+				return true
+			}
+			nCalls++
+			cx := fc.E(call.Args[2])
+			good := false
+			if se, ok := ast.Unparen(call.Args[2]).(*ast.SelectorExpr); ok && se.Sel.Name == "Config" && typeIs(info.TypeOf(se.X), "*config.Interface") {
+				good = strings.HasPrefix(cx, "rangeval(ARG") && strings.HasSuffix(cx, ").Config")
+			}
+			c.Check(good, "R13.1", "methodData|addvar|caller-config", r.Pos(call.Pos()), "methodData receives <the interface being rendered>.Config", "methodData is called with "+cx+" instead of the Config of the interface being rendered: replace-type (and every other per-interface setting it consults) set on the interface or a configs entry is ignored")
+			return true
+		})
+	}
+	if nCalls == 0 {
+		c.Fail("R13.1", "methodData|addvar|caller-config", r.Pos(md.Pos()), "methodData is never called")
 	}
 }
